@@ -73,7 +73,7 @@ def classifiedRaiseSites : List Site := [
   u "rattr/cli/_argparse.py" "ArgumentParser.exit" "argparse.ArgumentError" "only with exit_on_error=False (the TOML pass), where parse_arguments catches it",
   u "rattr/cli/_types.py" "TomlArgumentType.is_valid" "NotImplementedError" "all enum members are handled above it",
   u "rattr/cli/_util.py" "multi_paragraph_wrap._preserve" "SyntaxError" "only on rattr's own help texts (constants)",
-  u "rattr/cli/parser.py" "_toml_error" "exc" "only with exit_on_error=False (tests); the CLI path calls error.fatal first (which itself dies: row TOML in libraryRows)",
+  u "rattr/cli/parser.py" "_toml_error" "exc" "only with exit_on_error=False (tests); the CLI path prints a fatal: line and exits 1 (fix f47ae20)",
   u "rattr/cli/parser.py" "_validate_toml_config" "argparse.ArgumentError" "caught by _parse_project_config",
   r "rattr/codegen/util.py" "gen_import_from_stmt" "ValueError" "K1",
   u "rattr/codegen/util.py" "gen_import_from_stmt" "ValueError" "the only caller passes the literal '*' as target",
@@ -96,10 +96,10 @@ def classifiedRaiseSites : List Site := [
   u "rattr/models/symbol/_symbol.py" "Symbol.__lt__" "TypeError" "symbols are only sorted among themselves",
   u "rattr/models/symbol/_symbol.py" "AnyCallInterface.from_fn_def" "NotImplementedError" "never called on AnyCallInterface",
   u "rattr/models/symbol/_symbol.py" "AnyCallInterface.from_arguments" "NotImplementedError" "never called on AnyCallInterface",
-  r "rattr/models/util/_serialisation_helpers.py" "make_symbol_deserialiser.deserialise_symbol" "ValueError" "K19",
-  r "rattr/models/util/_serialisation_helpers.py" "make_symbol_deserialiser.deserialise_symbol" "ValueError" "K19",
-  r "rattr/models/util/_serialisation_helpers.py" "make_call_interface_deserialiser.deserialise_call_interface" "ValueError" "K19",
-  r "rattr/models/util/_serialisation_helpers.py" "make_file_ir_deserialiser.deserialise_file_ir" "ValueError" "K19",
+  u "rattr/models/util/_serialisation_helpers.py" "make_symbol_deserialiser.deserialise_symbol" "ValueError" "the only deserialise call (cache gate) catches every exception since fix 16f7ad6: a malformed cache is stale",
+  u "rattr/models/util/_serialisation_helpers.py" "make_symbol_deserialiser.deserialise_symbol" "ValueError" "the only deserialise call (cache gate) catches every exception since fix 16f7ad6: a malformed cache is stale",
+  u "rattr/models/util/_serialisation_helpers.py" "make_call_interface_deserialiser.deserialise_call_interface" "ValueError" "the only deserialise call (cache gate) catches every exception since fix 16f7ad6: a malformed cache is stale",
+  u "rattr/models/util/_serialisation_helpers.py" "make_file_ir_deserialiser.deserialise_file_ir" "ValueError" "the only deserialise call (cache gate) catches every exception since fix 16f7ad6: a malformed cache is stale",
   u "rattr/module_locator/_locate.py" "iter_python_path_dirs" "RattrSysPathNotPopulated" "sys.path is never empty under `python -m rattr`",
   u "rattr/module_locator/util.py" "derive_module_name_from_path" "ValueError" "callers pass the current file or a symbol's defined_in, both set inside enter_file",
   r "rattr/plugins/analysers/builtins.py" "SortedAnalyser.on_call" "SyntaxError" "K3",
@@ -127,10 +127,15 @@ def libraryRows : List (String × String) := [
   ("K7", "AttributeError in is_list_of_call_specs: `.items()` on a list given as the kwargs of a rattr_results call spec"),
   ("K8-frozen", "FileNotFoundError in read.__enter__: spec.origin == 'frozen' for stdlib modules at follow level 3"),
   ("K12", "re.error from re.compile on a malformed -x / -F pattern"),
-  ("K19", "TypeError / cattrs ClassValidationError in deserialise on a cache file that is JSON but not a cache"),
   ("K20", "UnicodeDecodeError / SyntaxError(U+FEFF) in read + ast.parse: source files are read as UTF-8 text ignoring coding cookie and BOM"),
-  ("K21", "RecursionError in resolve_import on a re-export cycle a <-> b"),
-  ("TOML", "TypeError Config.__init__(): error.fatal is called before the Config singleton exists")
+  ("K21", "RecursionError in resolve_import on a re-export cycle a <-> b")
+]
+
+/-- Rows of the first pinned tree that upstream `fix:` commits removed (kept for the record; the corpus of
+py/props/c07.py still runs their witnesses, so a regression is reported as a violation). -/
+def fixedRows : List (String × String × String) := [
+  ("K19", "16f7ad6", "TypeError / cattrs ClassValidationError in deserialise on a cache file that is JSON but not a cache"),
+  ("TOML", "f47ae20", "TypeError Config.__init__(): error.fatal was called before the Config singleton existed")
 ]
 
 /-- The rows that have at least one reachable raise / assert site. -/
@@ -167,6 +172,13 @@ def oldOk (safe : Bool) (n : Node) : Bool :=
 a plain name (no `(a+b).c`), and the containers are tuples / lists. -/
 def unravelOk (n : Node) : Bool :=
   match unravelNames n with
+  | .crash _ => false
+  | _ => true
+
+/-- K4 (`del`): `unravel_names(target, _get_name=fullname_of)` does not raise (same shapes as
+`unravelOk`: the two differ only in which component of the name they keep). -/
+def unravelFullOk (n : Node) : Bool :=
+  match unravelFullNames n with
   | .crash _ => false
   | _ => true
 
@@ -243,7 +255,7 @@ def okNode : Node → Bool
   | .annAssign t ann [] => unravelOk t && okNode t && okNode ann
   | .annAssign t ann (v0 :: _) => assignOk [t] v0 && okNode t && okNode ann && okNode v0
   | .augAssign t v => assignOk [t] v && okNode t && okNode v
-  | .delete targets => targets.all unravelOk && okList targets
+  | .delete targets => targets.all unravelFullOk && okList targets
   | .forLoop t iter body orelse => unravelOk t && okNode t && okNode iter && okList body && okList orelse
   | .withStmt items body => withItemsOk items && okList items && okList body
   | .withitem ce vars => okNode ce && okList vars
